@@ -98,3 +98,33 @@ def cases():
              name='W', body=choice(seq(('plus', choice(seq(('range', C('a'), C('z'))))))))],
         inputs=[('S', w) for w in ['a', 'b', 'c', 'ab', 'if', 'zz', 'a b c d', 'q', 'x y']]))
     return out
+
+
+def seeded_replays():
+    """pinned cases from the seeded changes: one per pegdiff-kind replay, keyed by the change it caught"""
+    import glob
+    import json
+    import os
+    out = []
+    seen = set()
+    base = os.path.join(os.path.dirname(os.path.dirname(os.path.dirname(os.path.abspath(__file__)))), 'seeded')
+    for f in sorted(glob.glob(os.path.join(base, '*', 'replay_from_check.json'))):
+        try:
+            r = json.load(open(f))
+        except Exception:
+            continue
+        if r.get('kind') != 'pegdiff' or not r.get('sexp') or not r.get('grammar') or not r.get('rule'):
+            continue
+        if str(r.get('case', '')).startswith('corpusK'):
+            continue              # the pinned cases of known findings are in the corpus already, under the id their entry matches
+        key = (r['sexp'], r['rule'], r.get('input', ''))
+        if key in seen:
+            continue
+        seen.add(key)
+        name = os.path.basename(os.path.dirname(f))
+        tags = [t for t in r.get('tags', []) if t not in ('known_K3', 'known_K4', 'known_K5')]
+        # group relations (memo variants, include twins, spellings) need the twin: a lone replay keeps only its family tag
+        out.append(dict(id='rp' + name.replace('_', ''), rules=None, text=r['grammar'], sexp=r['sexp'], settings=dict(uctx=bool(r.get('uctx'))),
+                        inputs=[(r['rule'], r.get('input', ''))], tags=sorted(set(tags + ['corpus', 'replay'])), group=None, variant=None, solo=False,
+                        exports=[r['rule']]))
+    return out
